@@ -38,7 +38,7 @@ ALPHA = dict(
     stress_eq_rel=1e-8,         # stresses equal (before/after commit): ||dP|| <= rel*max||P|| + 10*tol*Y0
     det_abs=1e-10,              # |det Fp - 1|, |det Fv - 1|, |tr eps_p|
     yield_factor=10.0,          # yield excess <= yield_factor * solver_tol * Y0 + yield_round * ||P||
-    yield_round=1e3 * 2.0 ** -52,
+    yield_round=1e4 * 2.0 ** -52,   # ulps of ||P||: the Mises stress is a small difference of an autodiff stress (log strain, P F^T)
     same_state_abs=1e-13,       # "changes nothing": tensor part of the state, eqps compared exactly
     mini_rel=1e-9,              # incremental potential at the update <= candidate + mini_rel*scale
     relax_rel=1e-12,            # Wneq' <= Wneq*(1+relax_rel) + relax floor (rounding of the log strain)
@@ -771,8 +771,13 @@ class Point:
             Y = float(hard_stress(e_out, h)) + kin_stress(de, dt, h)
             f = sig - Y
             # + rounding of the stress itself: the Mises stress is read off an autodiff stress whose norm can exceed it by
-            # orders of magnitude (large pressure, stiff bulk modulus); 1e3 ulp of that norm
+            # orders of magnitude (large pressure, stiff bulk modulus); 1e4 ulp of that norm
             band = ALPHA["yield_factor"] * self.tol * Y0 + ALPHA["yield_round"] * np_norm(onp.asarray(r["P"]))
+            if h.get("rate") and de > 0:
+                # the increment de = e_out - e_in is known to one ulp of e_out only, and the rate term S (de/(dt eps0))^(1/m)
+                # of the flow stress is infinitely steep at de = 0: propagate that ulp through the oracle's own formula
+                ulp = 2.0 ** -52 * max(abs(e_out), abs(e_in))
+                band += 4.0 * abs(kin_stress(de + ulp, dt, h) - kin_stress(max(de - ulp, 0.0), dt, h))
             o["ye"] = "outside" if not (f <= band) else ("on" if f >= -band else "inside")
             self.last = dict(sig=sig, Y=Y, f=f, band=band, de=de)
             if math.isfinite(f):
